@@ -26,7 +26,8 @@ sensitivities equal to the spline solved on the data's second sensitivities.
 LEAST SQUARES (`C15_polynomial_reproduction_lsq`): with at least as many sites as coefficients and least squares
 allowed, the normal equations built from polynomial data are solved by Marsden's coefficients, so — full
 column rank, i.e. no zero pivot in THEIR elimination — the solved spline again equals the polynomial with all
-derivatives.
+derivatives.  `C15_polynomial_reproduction_unique`: the same from UNIQUENESS of the interpolation problem alone
+(a solution exists — Marsden's — and a uniquely solvable system meets no zero pivot).
 -/
 import RateslibModel.Proofs.FSolve
 import RateslibModel.Props.C14
@@ -215,6 +216,24 @@ theorem C15_polynomial_reproduction (t : List ℝ) (K : Nat) (H : RightEnd t K) 
     ∀ (x : ℝ), knot t 0 ≤ x → x ≤ knot t (t.length - 1) → ∀ m,
       s'.ppdnev x m = some ((derivative^[m] p).eval x) :=
   poly_reproduction t K H he p hp tau l r htau y hy hpiv s' h
+
+/-- POLYNOMIAL REPRODUCTION FROM UNIQUENESS ALONE: if the interpolation problem has AT MOST ONE solution (what the
+Schoenberg–Whitney conditions guarantee), no pivot of the elimination is zero — a solution exists, Marsden's, and
+a uniquely solvable system never meets a zero pivot under the code's pivot rule (`C13_nonsingular`) — so the
+solved spline and all its derivatives equal the polynomial's, everywhere in the domain. -/
+theorem C15_polynomial_reproduction_unique (t : List ℝ) (K : Nat) (H : RightEnd t K) (he : EndKnots t K)
+    (p : ℝ[X]) (hp : p.natDegree < K) (tau : List ℝ) (l r : Nat)
+    (htau : ∀ j, j < tau.length → knot t 0 ≤ tau.getD j 0 ∧ tau.getD j 0 ≤ knot t (t.length - 1))
+    (y : List ℝ)
+    (hy : ∀ j, j < tau.length → y.getD j 0 = (derivative^[rowOrder tau.length l r j] p).eval (tau.getD j 0))
+    (huniq : ∀ a b : Nat → ℝ,
+      Sol (t.length - K) ⟨bsplMatrix K t (t.length - K) tau l r, fun i => y.getD i 0⟩ a →
+      Sol (t.length - K) ⟨bsplMatrix K t (t.length - K) tau l r, fun i => y.getD i 0⟩ b →
+      ∀ c, c < t.length - K → a c = b c)
+    (s' : PPSpline ℝ ℝ) (h : (⟨K, t, none⟩ : PPSpline ℝ ℝ).csolve tau y l r false = some s') :
+    ∀ (x : ℝ), knot t 0 ≤ x → x ≤ knot t (t.length - 1) → ∀ m,
+      s'.ppdnev x m = some ((derivative^[m] p).eval x) :=
+  poly_reproduction_unique t K H he p hp tau l r htau y hy huniq s' h
 
 /-- POLYNOMIAL REPRODUCTION, LEAST-SQUARES BRANCH: at least as many sites as coefficients, least squares
 allowed, data from a polynomial of degree below the order; if the elimination on the normal equations
